@@ -3,7 +3,7 @@ CONSTANTS
   Impl = "ref"
   ExcludeKF = FALSE
   KindSet = {"layer", "seq", "ubm", "ubf", "id", "ubr"}
-  NBrSet = {2, 3}
+  NBrSet = {1, 2, 3}
   MaxBlocks = 1
   UseSet = {1, 2}
   PoolSet = {FALSE, TRUE}
@@ -14,6 +14,8 @@ CONSTANTS
   D = 6
   NameFamily = "plain"
   NameImpl = "asis"
+  SampleImpl = "ref"
+  ForkImpl = "ref"
 INVARIANT TypeOK
 INVARIANT C03_ExportSucceeds
 INVARIANT C03_ExportIsWinner
